@@ -9,4 +9,9 @@ namespace Ag.Outcome
 @[simp] theorem bind_unmodelled {α β} (k : String) (f : α → Outcome β) :
     (Outcome.unmodelled k >>= f) = .unmodelled k := rfl
 
+instance : LawfulMonad Outcome := LawfulMonad.mk'
+  (id_map := by intro α x; cases x <;> rfl)
+  (pure_bind := by intro α β a f; rfl)
+  (bind_assoc := by intro α β γ x f g; cases x <;> rfl)
+
 end Ag.Outcome
